@@ -139,7 +139,7 @@ func c02MapsWritten(c *Ctx, ge *GuardEngine) {
 // are implied when an argument mentions the asserted value).
 func unexpectedCtx(ctx []string, allowed []*regexp.Regexp, args []string) []string {
 	var bad []string
-	okv := ctxAllowed(ctx, allowed, args)
+	okv := ctxAllowed(ctx, allowed, args, true)
 	for i, cx := range ctx {
 		if !okv[i] {
 			bad = append(bad, cx)
